@@ -14,7 +14,7 @@ VARIABLES l, st, skipping, fails, cs
 CInitT(e) ==
   IF e.kind = "call" THEN [kind |-> "call", c |-> e.script, out |-> Outcomes(e.script),
                            tsrc |-> e.tsrc, timeout_ms |-> e.timeout_ms, ctx_ms |-> e.ctx_ms]
-  ELSE IF e.kind = "reuseseq" THEN [kind |-> "reuseseq", reuse |-> e.reuse, calls |-> e.calls, seen |-> 0, allEnded |-> TRUE]
+  ELSE IF e.kind = "reuseseq" THEN [kind |-> "reuseseq", reuse |-> e.reuse, reader |-> e.reader, calls |-> e.calls, seen |-> 0, allEnded |-> TRUE]
   ELSE [kind |-> "drain", d |-> DInit,
         u |-> [len |-> e.len, chunk |-> e.chunk, eofWithData |-> e.eof_with_data, failAt |-> e.fail_at]]
 
@@ -68,7 +68,7 @@ DrainAllowed(s, e) ==
     [] OTHER -> FALSE
 
 SeqAllowed(s, e) ==
-  CASE e.ev = "rcall" -> ~e.panic /\ e.i = s.seen + 1 /\ e.i <= s.calls /\ SeqCallReleased(s.reuse, e)
+  CASE e.ev = "rcall" -> ~e.panic /\ e.i = s.seen + 1 /\ e.i <= s.calls /\ SeqCallReleased(s.reuse, s.reader, e)
     [] e.ev = "rdone" -> s.seen = s.calls /\ e.calls = s.calls /\ SeqConnsAllowed(s.reuse, s.allEnded, e.conns)
     [] OTHER -> FALSE
 
@@ -87,7 +87,7 @@ MWhy(s, e) ==
   IF s.kind = "call" THEN (IF e.ev = "call" THEN CallWhy(s, e) ELSE "unknown-event")
   ELSE IF s.kind = "reuseseq" THEN
        (IF e.ev = "rcall" THEN
-           (IF e.result # "ok" \/ ~e.resp_obtained THEN "fault-free-call-failed"
+           (IF e.result # (IF s.reader = "w1" THEN "err" ELSE "ok") \/ ~e.resp_obtained THEN "fault-free-call-has-the-wrong-result"
             ELSE IF e.resp_closes < 1 THEN "response-body-not-closed"
             ELSE "response-body-not-drained-before-close")
         ELSE IF e.ev = "rdone" THEN "connection-not-reused-although-every-response-was-drained"
